@@ -408,6 +408,7 @@ func (c20) Eval(c *Chooser, env *Env) *Outcome {
 		}
 		o.Faults["tool-"+kind]++
 	}
+	o.Digest = DigestOf(res.Errs, res.Fatal != "", len(k.Invocations))
 	if v := runFailure("C20", k); v != nil {
 		o.V = v
 		return o
